@@ -228,7 +228,8 @@ class Inode:
         self.size = size_lo | (size_hi << 32)
         self.size_lo, self.size_hi = size_lo, size_hi
         self.i_blocks = blocks_lo | (blocks_hi << 32)
-        self.file_acl = acl_lo | (acl_hi << 32)
+        # (the high 16 bits exist only with the 64bit feature; without it kernel and libext2fs ignore them)
+        self.file_acl = acl_lo | ((acl_hi << 32) if img.is64 else 0)
         self.extra_isize = 0
         self.csum_hi = None
         self.projid = 0
